@@ -82,6 +82,25 @@ SEEDS = {
  'c18r4-totlen-width': ('C18', 'bundled build, one hash context fed 2^29 bytes or more'),
  'c19r4-static-scan-buffer': ('C19', 'two threads validating two different files at once'),
  'c20r4-bound-after-stop': ('C20', 'a compressed integer expected exactly at the end of the buffer (*length == max_length)'),
+ 'c01r5-scratch-fixed-block': ('C01', 'a read request above 32 KiB on a chunk with more than 32 KiB stored (no compression, incompressible data, large manual chunk or dictionary)'),
+ 'c02r5-end-dchunk-lt0': ('C02', 'allocation failure (or an announced size of 2^62) for one zstd chunk: the chunk is dropped and the read goes on with success'),
+ 'c03r5-scratch-capped-at-block': ('C03', 'a read request above 32 KiB together with a chunk that has more than 32 KiB of stored data left: read() overruns the scratch block'),
+ 'c04r5-reset-before-copy': ('C04', 'an old file whose header is intact and shares a chunk with the new one, that chunk corrupted in the old file body'),
+ 'c05r5-overquoted-boundary': ('C05', "a multipart boundary containing an apostrophe (RFC 2046 allows it): the over-quoted pattern can never match"),
+ 'c06r5-compare-against-pin': ('C06', 'stepwise open with the expected digest set between zck_read_lead and zck_read_header, stored header checksum altered'),
+ 'c07r5-hex-half-compare': ('C07', 'pinned and stored digests that differ only in the second half'),
+ 'c08r5-uncomp-length-dropped': ('C08', 'source and target with different compressors and the uncompressed-source flag, equal uncompressed checksum but different length'),
+ 'c09r5-data-offset-from-sections': ('C09', 'a header that declares more length than its sections use (unused trailing header bytes)'),
+ 'c10r5-skip-on-uncompressed-length': ('C10', 'a missing chunk with uncompressed size 0 and stored size > 0 (empty zstd frame)'),
+ 'c11r5-read-retry-eintr-only': ('C11', 'a restart whose rescan gets one short (non-EOF) read() on the target'),
+ 'c13r5-uncomp-digest-size': ('C13', 'uncompressed-source flag and a chunk digest size different from the overall digest size (zck -u -h sha512)'),
+ 'c14r5-static-scratch-block': ('C14', 'two contexts read from two threads with one read() landing between the other read and its use of the block'),
+ 'c15r5-verdict-bool-return': ('C15', 'a damaged zstd chunk that still decodes (raw block payload)'),
+ 'c16r5-min-test-off-by-one': ('C16', 'a rolling-hash match at exactly offset chunk_auto_min - 1 of a chunk'),
+ 'c17r5-pattern-buffer-from-unquoted': ('C17', 'a multipart boundary with three or more regex-special characters'),
+ 'c18r5-sha1-transform-aliases-input': ('C18', 'bundled build, SHA-1 selected, an update of 128 bytes or more whose buffer is used again afterwards'),
+ 'c19r5-log-mute-in-validate-lead': ('C19', 'two threads inside zck_validate_lead() on two contexts at the same time, non-default log level'),
+ 'c20r5-encoder-shift-guard': ('C20', 'encoding a value with bit 63 set'),
 }
 PROPS = ['C%02d' % i for i in range(1, 21)]
 def sh(cmd, **kw):
